@@ -25,6 +25,7 @@ from fractions import Fraction
 from unittest import mock
 
 from . import common
+from . import c06_f32
 from .common import rlit, lst
 
 HEADER = """From Coq Require Import Reals List Lra.
@@ -550,8 +551,21 @@ def generate(ctx):
     ctx.tested_not_proved.append(f"eager vs jit+vmap kernel.transition on {len(sub)} cases: {ndiff} differences (tolerance 1e-9)")
     cases += utils_cases(rnd, ctx.quick)
     common.log(f"[C06] eager re-runs and iwls_utils done at {time.time() - ctx.t0:.0f}s")
+    # float32 (liesel's default dtype) stratum: larger blocks, where a float-only slip (overflowing log-determinant) shows
+    f32 = c06_f32.gen_cases(rnd, ctx.quick)
+    c06_f32.run_cases(f32, jit=True, log=common.log)
+    cases += f32 + c06_f32.utils_cases(rnd, ctx.quick)
+    common.log(f"[C06] float32 large-block stratum done at {time.time() - ctx.t0:.0f}s")
     usable = 0
     for c in cases:
+        if c["kernel"] == "iwls32":
+            import numpy as np
+            ctx.hist(f"float32.iwls.{c['fam']}{c['n']}.info_scale={c['kappa']:g}.step={c['s']}")
+            ctx.hist("float32: accepted, error code 0" if (c["moved"] and c["code"] == 0) else "float32: NOT accepted / error code")
+            continue
+        if c["kernel"] == "utils32":
+            ctx.hist(f"float32.iwls_utils.mvn_log_prob.n={c['n']}.{'diagonal' if c['diagonal'] else 'dense'} (prod of diag outside float32 range)")
+            continue
         if c["kernel"] == "utils":
             ctx.hist("iwls_utils." + c["fn"] + f".n={len(c['m'])}")
             usable += 1
@@ -565,13 +579,16 @@ def generate(ctx):
         if c["mode"] == "forced" and not c["forced_ok"]:
             ctx.hist("forced draw not intercepted (falls back to accepted-only)")
     distinct = {(group_of(c), tuple(c["x"]), tuple(c["z"]), c["s"], c["seed"] if c["mode"] == "free" else 0)
-                for c in cases if c["kernel"] != "utils" and c["moved"]}
-    ctx.count(len(cases), len(distinct) + sum(1 for c in cases if c["kernel"] == "utils"))
+                for c in cases if c["kernel"] in ("iwls", "rw", "mh") and c["moved"]}
+    ctx.count(len(cases), len(distinct) + sum(1 for c in cases if c["kernel"] in ("utils", "utils32"))
+              + sum(1 for c in cases if c["kernel"] == "iwls32" and c["moved"]))
     ctx.cov["rule"] = ("one case = one real kernel.transition (family, block shape, interface, chol variant, epoch type, "
                        "current point, normal draw or PRNG key, step size) whose proposal was accepted, or one iwls_utils call; "
                        "distinct = distinct such tuples; rejected free-stream transitions are run but not counted")
-    for c in cases[:3] + [c for c in cases if c["kernel"] != "utils" and len(c["x"]) == 3][:1]:
+    for c in cases[:3] + [c for c in cases if c["kernel"] == "iwls" and len(c["x"]) == 3][:1]:
         ctx.sample({k: c[k] for k in c if k != "P"} | {"P": str(c["P"])})
+    for c in [c for c in cases if c["kernel"] == "iwls32" and c["n"] == 20][:1]:
+        ctx.sample({k: (v[:4] if isinstance(v, list) else v) for k, v in c.items()})
     ctx.assume += [
         "theorems: 0 < step size; Cholesky factor of the information positive (scalar blocks); for MHKernel the declared "
         "correction is log q(x|x')/q(x'|x) of a positive proposal density q",
@@ -584,6 +601,10 @@ def generate(ctx):
         "(multivariate change of variables) is not proved",
         "jax autodiff (grad, jacfwd), jnp.linalg.cholesky, triangular_solve, norm.logpdf agree with the closed forms: tested by the R-lemmas on the sampled cases",
         "that jax.random.normal draws standard normal variates and jax.random.uniform uniform ones (library behaviour)",
+        "float32 (default dtype) IWLS transitions on blocks of 10, 20, 40 coefficients (information scales 1, 1e2, 1e4; step sizes 0.01 "
+        "(the default), 0.1, 1): error code 0, accepted, log acceptance ratio and proposal agree with the n-d model evaluated in float64 "
+        "by the oracle (tolerance 2e-5 relative to the magnitudes involved); these large blocks are not evaluated in Coq, only "
+        "mvn_log_prob itself is (float32 value vs Gauss.mvn_log_prob at points where prod(diag) leaves the float32 range)",
         "DA step-size adaptation in adaptation epochs leaves the reported acceptance probability unchanged: tested on the adaptation-epoch cases",
     ]
     ctx.extra_tb = ["Interval tactic (verified interval arithmetic over Flocq/Bignums) for the generated R-lemmas",
@@ -775,6 +796,17 @@ def lemmas_of(i, c):
     """list of (name, statement, proof, cost)"""
     out = []
     itv = f"interval with (i_prec {PREC})"
+    if c["kernel"] == "iwls32":
+        return out
+    if c["kernel"] == "utils32":
+        v = c["val"][0]
+        if not math.isfinite(v):
+            return out          # nothing to state about inf / nan: the oracle reports it
+        tri = tri_of_lower(c["Lfull"])
+        tol = Fraction(1, 10 ** 4) * max(Fraction(1), abs(Fraction(float(v))))
+        st = f"close {qlitR(tol)} (mvn_log_prob {V(c['x'])} {V(c['m'])} {T(tri)}) {R(v)}"
+        out.append((f"c{i}_utils32", st, f"cbv [{CBV}]. box_goals ltac:({itv}).", 3.0))
+        return out
     if c["kernel"] == "utils":
         n = len(c["m"])
         cost = {1: 0.4, 2: 0.8, 3: 2.0}[n]
@@ -883,6 +915,8 @@ def diagnose(ctx, path, idxs, cases):
 def oracle(c):
     import numpy as np
     from scipy.stats import multivariate_normal as mvn, norm
+    if c["kernel"] in ("iwls32", "utils32"):
+        return c06_f32.oracle(c)
     if c["kernel"] == "utils":
         L = lower_of_tri(c["L"])
         prec = L @ L.T
@@ -958,12 +992,14 @@ def klass(c):
 
 def search(ctx, disagreeing):
     """widened search with the direct oracle when a lemma broke but no sampled case fails the oracle"""
-    kernels = sorted({c["kernel"] for c in disagreeing if c.get("kernel") not in (None, "utils")}) or None
+    kernels = sorted({c["kernel"] for c in disagreeing if c.get("kernel") in ("iwls", "rw", "mh")}) or None
     rnd = random.Random(ctx.seed + 1)
     found = []
     for rounds in range(2):
         cases = gen_cases(rnd, True, scale=2.0, only_kernels=kernels)
         run_cases(cases, jit=True)
+        if kernels is None or "iwls" in kernels:
+            cases += c06_f32.run_cases(c06_f32.gen_cases(rnd, True), jit=True) + c06_f32.utils_cases(rnd, True)
         for c in cases:
             r = oracle(c)
             if r:
@@ -981,8 +1017,14 @@ def replay(rp):
     cs = [body["case"]] if "case" in body else body.get("disagreeing_cases", [])
     rc = 0
     for c in cs:
-        if c.get("kernel") == "utils":
+        if c.get("kernel") in ("utils", "utils32"):
             r = oracle(c)
+            print(f"{c['kernel']} {c.get('fn')} value recorded by the failing run: {c.get('val')}")
+        elif c.get("kernel") == "iwls32":
+            c2 = {k: v for k, v in c.items() if k not in ("p", "moved", "code", "xp", "forced_ok", "why")}
+            c06_f32.run_cases([c2], jit=False)
+            r = oracle(c2)
+            print(c06_f32.describe(c2) + f"re-run: moved={c2['moved']} error code={c2['code']} acceptance_prob={c2['p']!r}")
         else:
             c2 = {k: v for k, v in c.items() if k not in ("p", "moved", "code", "xp", "forced_ok", "why")}
             run_cases([c2], jit=False)
